@@ -229,14 +229,15 @@ Proof.
         -- inversion H. subst. exists pre, post. repeat split; auto. intros y Hy. apply Hp. right. exact Hy.
 Qed.
 
-(* the regular expression of numbered_vars_regexp, as a specification *)
-Theorem numbered_match_spec : forall heads s h,
-  numbered_match heads s = Some h <->
-  exists pre post, heads = pre ++ h :: post /\
-    (exists z : Z, s = h ++ index_suffix z) /\
-    (forall h', In h' pre -> ~ exists z : Z, s = h' ++ index_suffix z).
+(* the regular expression of numbered_vars_regexp, as a specification (for a non-empty list of heads; with no heads the
+   pattern degenerates to the empty head, see numbered_match_no_heads) *)
+Theorem numbered_match_spec : forall heads s h, heads <> [] ->
+  (numbered_match heads s = Some h <->
+   exists pre post, heads = pre ++ h :: post /\
+     (exists z : Z, s = h ++ index_suffix z) /\
+     (forall h', In h' pre -> ~ exists z : Z, s = h' ++ index_suffix z)).
 Proof.
-  intros heads s h. unfold numbered_match. rewrite find_first. split.
+  intros heads s h NE. unfold numbered_match. destruct heads as [|a t]; [congruence | ]. rewrite find_first. split.
   - intros [pre [post [H [M N]]]]. exists pre, post. split; [exact H | ]. split; [apply head_matches_spec; exact M | ].
     intros h' Hh' K. apply head_matches_spec in K. rewrite (N h' Hh') in K. discriminate.
   - intros [pre [post [H [M N]]]]. exists pre, post. split; [exact H | ]. split; [apply head_matches_spec; exact M | ].
@@ -244,13 +245,22 @@ Proof.
     apply head_matches_spec. exact E.
 Qed.
 
-Theorem numbered_match_none : forall heads s,
-  numbered_match heads s = None <-> forall h, In h heads -> ~ exists z : Z, s = h ++ index_suffix z.
+Theorem numbered_match_none : forall heads s, heads <> [] ->
+  (numbered_match heads s = None <-> forall h, In h heads -> ~ exists z : Z, s = h ++ index_suffix z).
 Proof.
-  intros heads s. unfold numbered_match. split.
+  intros heads s NE. unfold numbered_match. destruct heads as [|a t]; [congruence | ]. split.
   - intros H h Hh K. apply head_matches_spec in K. rewrite (find_none _ _ H h Hh) in K. discriminate.
-  - intro H. destruct (find (head_matches s) heads) as [h|] eqn:F; [ | reflexivity].
+  - intro H. destruct (find (head_matches s) (a :: t)) as [h|] eqn:F; [ | reflexivity].
     apply find_some in F. destruct F as [F1 F2]. exfalso. apply (H h F1). apply head_matches_spec. exact F2.
+Qed.
+
+Theorem numbered_match_no_heads : forall s h,
+  numbered_match [] s = Some h <-> h = [] /\ exists z : Z, s = index_suffix z.
+Proof.
+  intros s h. unfold numbered_match. simpl. destruct (head_matches s []) eqn:E.
+  - apply head_matches_spec in E. split; [intro H; inversion H; auto | intros [H _]; subst; reflexivity].
+  - split; [discriminate | ]. intros [H K]. subst. exfalso.
+    assert (head_matches s [] = true) by (apply head_matches_spec; exact K). congruence.
 Qed.
 
 (* renderings: the usual decimal forms, including negative and multi-digit indices *)
